@@ -451,7 +451,7 @@ def ccase(c, p):
 
 PRE = """From Coq Require Import NArith List Bool Uint63.
 Import ListNotations.
-Require Import UV.C15.Model UV.C15.Doc UV.C15.GraphF UV.C15.GraphText UV.C15.Lit.
+Require Import UV.C15.Model UV.C15.Doc UV.C15.GraphF UV.C15.GraphText UV.C15.BackTrace UV.C15.Lit.
 Local Open Scope uint63_scope.
 """
 KINDS = ["graph", "flame0", "flameS", "dot", "mermaid", "chrome"]
@@ -487,6 +487,14 @@ def evaluate_cases(ctx, cases, parsed, name="cases", flame_fixed=False):
         for i, (func, rows) in fcs)
     evals.append(("mismatch_graphf", "bad_indices agree_graphf fcases 0"))
     evals.append(("violation_graphf", "bad_indices okc_graphf fcases 0"))
+    bcs = [(i, p["bts"]) for i, p in enumerate(parsed) if p.get("bts") is not None]
+    defs += "Definition bcases : list bcase := [\n%s\n].\n" % ";\n".join(
+        "mk_bcase (nth %d%%nat cases (mk_case [] [] [] [] 0%%N [] [] [] [] [] [] true [] [])) %s [%s]" % (
+            i, cb(func), "; ".join("bt_ [%s] %d %s" % (";".join("%d" % x for x in key), hit,
+                                                       "None" if tm is None else "(Some (n_ %d, n_ %d, n_ %d))" % tm)
+                                   for key, hit, tm in blocks)) for i, (func, blocks) in bcs)
+    evals.append(("mismatch_bt", "bad_indices agree_bt bcases 0"))
+    evals.append(("violation_bt", "bad_indices okc_bt bcases 0"))
     tcs = [(i, tx) for i, p in enumerate(parsed) for tx in p.get("texts", [])]
     defs += "Definition tcases : list tcase := [\n%s\n].\n" % ";\n".join(
         "mk_tcase (nth %d%%nat cases (mk_case [] [] [] [] 0%%N [] [] [] [] [] [] true [] [])) %s %s" % (
@@ -520,6 +528,8 @@ def evaluate_cases(ctx, cases, parsed, name="cases", flame_fixed=False):
         return None
     res = {k: coq.parse_nat_list(v) for k, v in res.items()}
     res["muts"] = muts
+    res["bt_owner"] = [i for i, _ in bcs]
+    res["bt_list"] = [b for _, b in bcs]
     res["text_owner"] = [i for i, _ in tcs]
     res["text_list"] = [t for _, t in tcs]
     res["graphf_owner"] = [i for i, _ in fcs]
@@ -573,6 +583,44 @@ def run_case(objdir, c, d, cmdline=b"prog arg", with_cmdline=True):
     p["texts"] = [(None, graph_section(o["graph"]))]
     p["docs"] = [doc_inputs(c, o["chrome"], cmdline, with_cmdline)]
     return p
+
+
+BT_HEAD = re.compile(rb" backtrace #(\d+): hit (\d+), time (.{10})$")
+BT_FRAME = re.compile(rb"   \[(\d+)\] (.*) \(0x([0-9a-f]+)\)$", re.S)
+
+
+def parse_backtraces(out):
+    """the BACKTRACE section of `graph FUNC` -> [(symbol indices outermost first, hit, time field)] in print order"""
+    lines = out.split(b"\n")
+    res = []
+    cur = None
+    inside = False
+    for l in lines:
+        if l.startswith(b"=============== BACKTRACE"):
+            inside = True
+            continue
+        if l.startswith(b"========== FUNCTION CALL GRAPH"):
+            break
+        if not inside:
+            continue
+        m = BT_HEAD.match(l)
+        if m:
+            if int(m.group(1)) != len(res):
+                raise ParseError("backtrace numbering %r" % l)
+            cur = ([], int(m.group(2)), parse_time_field(m.group(3)))
+            res.append(cur)
+            continue
+        m = BT_FRAME.match(l)
+        if m:
+            if cur is None or int(m.group(1)) != len(cur[0]):
+                raise ParseError("backtrace frame %r" % l)
+            off = int(m.group(3), 16) - BASE - 0x1000
+            if off % 0x100 or off < 0:
+                raise ParseError("backtrace address %r" % l)
+            cur[0].append(off // 0x100)
+        elif l != b"":
+            raise ParseError("backtrace line %r" % l)
+    return res
 
 
 def run_graphf(objdir, c, d, rng, func=None):
@@ -924,6 +972,22 @@ def verdict(ctx, cases, parsed, res, flame_fixed=False):
                        "case": case_json(cases[i], parsed[i])}, False)
         anyviol = True
     ctx.extra["graph_func_cases"] = len(res.get("graphf_list", []))
+    # the BACKTRACE section of graph FUNC
+    for j in res.get("violation_bt", [])[:2]:
+        anyviol = True
+        i = res["bt_owner"][j]
+        ctx.violation("C15 violated: the BACKTRACE section of `uftrace graph FUNC` does not give the hits and times of the "
+                      "call stacks leading to FUNC", {"kind": "dir", "output": "backtrace", "func": res["bt_list"][j][0].hex(),
+                                                      "case": case_json(cases[i], parsed[i])}, True)
+    if not anyviol and res.get("mismatch_bt"):
+        j = res["mismatch_bt"][0]
+        i = res["bt_owner"][j]
+        ctx.violation("model and implementation disagree on the BACKTRACE section of `uftrace graph FUNC` (%d cases); the "
+                      "checker accepts every explored output" % len(res["mismatch_bt"]),
+                      {"kind": "dir", "output": "backtrace", "func": res["bt_list"][j][0].hex(),
+                       "case": case_json(cases[i], parsed[i])}, False)
+        anyviol = True
+    ctx.extra["backtrace_sections_checked"] = len(res.get("bt_list", []))
     # the raw text of the FUNCTION CALL GRAPH section (model of print_graph_node / pr_indent / print_time_unit)
     if not anyviol and res.get("mismatch_text"):
         j = res["mismatch_text"][0]
@@ -1088,6 +1152,7 @@ def run(ctx):
                 gf = run_graphf(objdir, c, d, ctx.rng)
                 p["graphf"] = gf[:2]
                 p["texts"].append((gf[0], graph_section(gf[2])))
+                p["bts"] = (gf[0], parse_backtraces(gf[2]))
                 extra_tags.append("graph-func:" + ("not-called" if p["graphf"][1] is None else
                                                    "zero-time-leaf" if p["graphf"][1] == [] else "called"))
             except ParseError as e:
@@ -1125,6 +1190,7 @@ def replay(ctx, obj):
             gf = run_graphf(objdir, c, os.path.join(ctx.scratch, "dir"), ctx.rng, bytes.fromhex(obj["func"]))
             p["graphf"] = gf[:2]
             p["texts"].append((gf[0], graph_section(gf[2])))
+            p["bts"] = (gf[0], parse_backtraces(gf[2]))
         ctx.case(key="replay", sample=case_json(c, p))
         res = evaluate_cases(ctx, [c], [p], flame_fixed=flame_fixed)
         ctx.log("replayed directory case:", res)
